@@ -190,6 +190,17 @@ Section Download.
 
   Definition install := install_n 2.
 
+  (* the `download` command: Dataset.download(force_overwrite=force) called on its own (no previous status).
+     With force an existing archive file is deleted first and the status probed again.  Note that on a
+     dataset that is marked installed the loop downloads the archive anyway (status stays "installed");
+     nothing is ever extracted or marked by this command. *)
+  Definition download_cmd (n : nat) (force : bool) (s : lstate) : outcome status :=
+    bind (prob_status s) (fun st s =>
+      bind (match archive s with
+            | Some _ => if force then prob_status (set_archive None s) else Ret st s
+            | None => Ret st s
+            end) (fun st s => download n st s)).
+
   (* ---- a variant with the weaker gate  `if status == 'corrupted'` (a typical regression); used only
      to show that the property theorem is able to fail *)
   Definition install_weak_gate (s0 : lstate) : outcome status :=
@@ -207,16 +218,23 @@ Section Download.
                end)).
 End Download.
 
-(* ---- a history: any number of installation calls one after the other on the same install directory,
-   each with its own server behaviour, untar behaviour, attempt count and flags *)
-Record call := mkCall { k_srv : server; k_untar : bytes -> bool; k_attempts : nat; k_force : bool; k_noclean : bool }.
+(* ---- a history: any number of `install` / `download` calls one after the other on the same install
+   directory, each with its own server behaviour, untar behaviour, attempt count and flags.  Only the
+   archive file and the installed index persist from one call to the next. *)
+Inductive call_kind := KInstall | KDownload.
+Record call := mkCall { k_kind : call_kind; k_srv : server; k_untar : bytes -> bool; k_attempts : nat;
+                        k_force : bool; k_noclean : bool }.
+
+Definition run_call (sha : bytes -> string) (name expected : string) (c : call) (s : lstate) : outcome status :=
+  match k_kind c with
+  | KInstall => install_n sha (k_srv c) name expected (k_untar c) (k_attempts c) (k_force c) (k_noclean c) s
+  | KDownload => download_cmd sha (k_srv c) name expected (k_attempts c) (k_force c) s
+  end.
 
 Fixpoint run_calls (sha : bytes -> string) (name expected : string) (cs : list call) (s : lstate) : lstate :=
   match cs with
   | [] => s
-  | c :: cs' =>
-    run_calls sha name expected cs'
-      (final (install_n sha (k_srv c) name expected (k_untar c) (k_attempts c) (k_force c) (k_noclean c) s))
+  | c :: cs' => run_calls sha name expected cs' (final (run_call sha name expected c s))
   end.
 
 (* ---- an honest server for an archive [good]: tells the true size, honours Range *)
@@ -285,30 +303,52 @@ Inductive obs_outcome :=
 | OReturned                (* the install command returned (status not observable at that level) *)
 | ORaised.                 (* an exception escaped *)
 
-Record case := {
-  c_name : string; c_expected : string; c_sha : list (bytes * string);
-  c_force : bool; c_noclean : bool; c_untar_fails : bool;
-  c_archive : option bytes; c_index : list string;
-  c_script : list response;
+(* one call of a history and what the implementation was observed to do in it *)
+Record step := {
+  t_kind : call_kind; t_force : bool; t_noclean : bool; t_untar_fails : bool;
+  t_script : list response;         (* the concrete responses the fake server gave during this call *)
   o_outcome : obs_outcome;
-  o_archive : option bytes;         (* archive file afterwards *)
-  o_index : list string;            (* installed index afterwards, sorted *)
-  o_requests : list request;        (* requests the implementation made, in order *)
-  o_log : list event                (* extraction / upgrade calls, in order *)
+  o_archive : option bytes;         (* archive file after the call *)
+  o_index : list string;            (* installed index after the call, sorted *)
+  o_requests : list request;        (* requests the implementation made during the call, in order *)
+  o_log : list event                (* extraction / upgrade calls during the call, in order *)
 }.
 
-Definition check_case (c : case) : bool :=
-  let s0 := mkSt (c_archive c) (c_index c) [] [] in
-  let r := install (sha_of_table (c_sha c)) (srv_of_script (c_script c)) (c_name c) (c_expected c)
-                   (fun _ => c_untar_fails c) (c_force c) (c_noclean c) s0 in
+(* a case = a prior local state and a history of calls on the same install directory *)
+Record case := {
+  c_name : string; c_expected : string; c_sha : list (bytes * string);
+  c_archive : option bytes; c_index : list string;
+  c_steps : list step
+}.
+
+Definition check_step (sha : bytes -> string) (name expected : string) (a : option bytes) (idx : list string)
+           (t : step) : bool * lstate :=
+  let s0 := mkSt a idx [] [] in
+  let c := mkCall (t_kind t) (srv_of_script (t_script t)) (fun _ => t_untar_fails t) 2 (t_force t) (t_noclean t) in
+  let r := run_call sha name expected c s0 in
   let sf := final r in
-  match r, o_outcome c with
-  | Ret st _, OStatus s => eqb (status_str st) s
-  | Ret _ _, OReturned => true
-  | Raise _ _, ORaised => true
-  | _, _ => false
-  end
-  && eqb (archive sf) (o_archive c)
-  && eqb (ssort (dedup (index sf))) (o_index c)
-  && all2 request_eqb (rev (reqs sf)) (o_requests c)
-  && all2 event_eqb (rev (log sf)) (o_log c).
+  (match r, o_outcome t with
+   | Ret st _, OStatus s => eqb (status_str st) s
+   | Ret _ _, OReturned => true
+   | Raise _ _, ORaised => true
+   | _, _ => false
+   end
+   && eqb (archive sf) (o_archive t)
+   && eqb (ssort (dedup (index sf))) (o_index t)
+   && all2 request_eqb (rev (reqs sf)) (o_requests t)
+   && all2 event_eqb (rev (log sf)) (o_log t), sf).
+
+(* the model is iterated over the history: what it carries from one call to the next is its own archive
+   content and index, nothing else — a file the implementation leaves behind that changes a later call's
+   behaviour shows up as a mismatch in that later step *)
+Fixpoint check_steps (sha : bytes -> string) (name expected : string) (a : option bytes) (idx : list string)
+         (ts : list step) : bool :=
+  match ts with
+  | [] => true
+  | t :: ts' =>
+    let (ok, sf) := check_step sha name expected a idx t in
+    ok && check_steps sha name expected (archive sf) (index sf) ts'
+  end.
+
+Definition check_case (c : case) : bool :=
+  check_steps (sha_of_table (c_sha c)) (c_name c) (c_expected c) (c_archive c) (c_index c) (c_steps c).
